@@ -276,10 +276,50 @@ func soleDefinition(info *types.Info, fd *ast.FuncDecl, v *types.Var) ast.Expr {
 		var ret ast.Expr
 		nfr, nret := 0, 0
 		for _, fr := range framesIn(fd) {
-			if fr.Tok != token.DEFINE || len(fr.Lhs) != 1 {
+			if fr.Tok != token.DEFINE {
 				continue
 			}
-			if id, ok := fr.Lhs[0].(*ast.Ident); !ok || info.ObjectOf(id) != v {
+			idx := -1
+			for i, l := range fr.Lhs {
+				if id, ok := l.(*ast.Ident); ok && info.ObjectOf(id) == v {
+					idx = i
+				}
+			}
+			if idx < 0 {
+				continue
+			}
+			if len(fr.Lhs) > 1 {
+				// several results: the one value this result takes apart from zero values (the failure returns)
+				var vals []ast.Expr
+				ast.Inspect(fr.Block, func(m ast.Node) bool {
+					switch x := m.(type) {
+					case *ast.FuncLit:
+						return false
+					case *ast.BlockStmt:
+						if x != fr.Block && inlineFrames[x] != nil {
+							return false
+						}
+					case *ast.ReturnStmt:
+						if idx < len(x.Results) {
+							r := x.Results[idx]
+							if tv, ok := info.Types[r]; ok && tv.Value != nil {
+								return true // a constant (0, "", false): the failure value
+							}
+							if isNilIdent(info, r) {
+								return true
+							}
+							vals = append(vals, r)
+						}
+					}
+					return true
+				})
+				if len(vals) == 1 {
+					nfr++
+					nret++
+					ret = vals[0]
+				} else {
+					nfr += 2
+				}
 				continue
 			}
 			nfr++
